@@ -19,6 +19,8 @@ SCENARIOS = {
     'insert-insert|add-add': [[('insert', 1), ('insert', 2)], [('add', 3), ('add', 4)]],
     'add|add|add': [[('add', 1)], [('add', 2)], [('add', 3)]],
     'add-probe|insert-probe': [[('add', 1), ('probe', None), ('add', 2)], [('insert', 3), ('probe', None)]],
+    'add-add-add|clear': [[('add', 1), ('add', 2), ('add', 3)], [('clear', None)]],
+    'add-add|clear-insert': [[('add', 1), ('add', 2)], [('clear', None), ('insert', 3)]],
 }
 
 
@@ -94,6 +96,9 @@ def scenario(ctx, clients, max_preempt, raising):
                     elif op == 'spawn':
                         jobs[ident] = J(ident, True)
                         r = jc.spawn_job(jobs[ident], ident)
+                    elif op == 'clear':
+                        jc.clear_queue()
+                        continue
                     else:
                         jc.has_jobs(); jc.get_current(); jc.get_queued(); jc.is_running('b1')
                         continue
@@ -112,10 +117,24 @@ def scenario(ctx, clients, max_preempt, raising):
         elif left:
             problems.append('deadlock: threads %s never finish' % [t.name for t in left])
         starts = [e[1] for e in events if e[0] == 'start']
+        cleared = set()
+        m0 = collections.deque()
+        for op, x in RecDeque.log:
+            if op == 'append':
+                m0.append(x)
+            elif op == 'appendleft':
+                m0.appendleft(x)
+            elif op == 'popleft':
+                if m0 and m0[0] is x:
+                    m0.popleft()
+            else:
+                cleared.update(a.job.ident for a in m0)
+                m0.clear()
         for ident, j in jobs.items():
             n = starts.count(ident)
-            if n != 1 and not left and not s.out_of_steps:
-                problems.append('job %s was started %d times' % (ident, n))
+            want = 0 if ident in cleared else 1
+            if n != want and not left and not s.out_of_steps:
+                problems.append('job %s was started %d times%s' % (ident, n, ' although it had been cleared from the queue' if ident in cleared else ''))
         # order: every started queued job was the head of the queue as linearised by the controller's own deque
         model = collections.deque()
         order = []
@@ -196,7 +215,7 @@ def run(tier, seed):
     for name in SCENARIOS:
         for raising in (False, True):
             items.append({'scenario': name, 'raising': raising, 'preempt': 2 if q else 3, 'max_paths': 6000 if q else 400000,
-                          'budget_s': 45 if q else 800})
+                          'budget_s': 28 if q else 800})
     results, skipped = report.run_pool(worker, items, budget_s=common.tier_budget(tier, 75, 1000))
     return report.finish(
         PROP, tier, seed, 'exploration', results, skipped,
